@@ -8,6 +8,7 @@
     bvnHi                   `bvn_cdf`, branch |r| ≥ 0.925 (Genz's expansion) with its three cut-offs as parameters
     bvn                     the whole `bvn_cdf`, per evaluation point
     bvnOld                  `bvn_cdf` before /repo commit 378a266 (`asr > 100`), kept as a regression witness
+    bvnOldTail              `bvn_cdf` before /repo commit 4b6a233 (unmasked `exp` in `ep1`: NaN in far tails), likewise
 
   `sqrt exp sin asin Φ π` are explicit parameters.  Decimal literals are `OfScientific` literals, so
   the same tables are exact rationals at `Rat` (used by Generated/KernelConsts.lean, which re-checks them
@@ -131,9 +132,10 @@ def bvnLo (exp sin asin Φ : α → α) (pi : α) (rule : GLRule α) (dh dk hk r
     w * exp ((sn1 * hk - hs) / (1.0 - sn1 * sn1)) + w * exp ((sn2 * hk - hs) / (1.0 - sn2 * sn2))
   asr * fsum terms / (4.0 * pi) + Φ (-dh) * Φ (-dk)
 
-/-- lines 165-199: the body of `if abs(r) < 1:` — `dk hk` already sign-flipped for `r < 0`.
+/-- lines 165-203: the body of `if abs(r) < 1:` — `dk hk` already sign-flipped for `r < 0`.
     `cA cH cA1` are the cut-offs of `asr > …`, `hk > …`, `asr1 > …`. -/
-def bvnHiCore (exp sqrt Φ : α → α) (pi : α) (cA cH cA1 : α) (rule : GLRule α) (dh dk hk r : α) : α :=
+def bvnHiCore (exp sqrt Φ : α → α) (pi : α) (cA cH cA1 : α) (maskEp : Bool) (rule : GLRule α)
+    (dh dk hk r : α) : α :=
   let opmr := (1.0 - r) * (1.0 + r)
   let sopmr := sqrt opmr
   let xmy2 := (dh - dk) * (dh - dk)
@@ -163,7 +165,10 @@ def bvnHiCore (exp sqrt Φ : α → α) (pi : α) (cA cH cA1 : α) (rule : GLRul
       let asr1 := -1.0 * (xmy2 / xs + hk) / 2.0
       let ind1 : α := if cA1 < asr1 then 1.0 else 0.0
       let sp1 := 1.0 + (rhk8 * xs) * (1.0 + rhk16 * xs)
-      let ep1 := exp (-(hk * (1.0 - rs)) / (2.0 * (1.0 + rs))) / rs
+      -- /repo 4b6a233: the exponent is multiplied by the mask before `exp` (`maskEp = false` is the code before it)
+      let ep1 :=
+        if maskEp then exp (-(hk * (1.0 - rs)) / (2.0 * (1.0 + rs)) * ind1) / rs
+        else exp (-(hk * (1.0 - rs)) / (2.0 * (1.0 + rs))) / rs
       (sopmr2 * w) * exp (asr1 * ind1) * (ep1 * ind1 - sp1 * ind1)
     bvn + fsum terms
   let bvn2 := pass (pass bvn1 (-1.0)) 1.0
@@ -171,16 +176,17 @@ def bvnHiCore (exp sqrt Φ : α → α) (pi : α) (cA cH cA1 : α) (rule : GLRul
   nbvn / (2.0 * pi)
 
 /-- lines 150-205: `|r| ≥ 0.925` -/
-def bvnHi (exp sqrt Φ : α → α) (pi : α) (cA cH cA1 : α) (rule : GLRule α) (dh dk0 hk0 r : α) : α :=
+def bvnHi (exp sqrt Φ : α → α) (pi : α) (cA cH cA1 : α) (maskEp : Bool) (rule : GLRule α)
+    (dh dk0 hk0 r : α) : α :=
   let dk := if r < 0.0 then -dk0 else dk0
   let hk := if r < 0.0 then -hk0 else hk0
-  let bvn := if absv r < 1.0 then bvnHiCore exp sqrt Φ pi cA cH cA1 rule dh dk hk r else 0.0
+  let bvn := if absv r < 1.0 then bvnHiCore exp sqrt Φ pi cA cH cA1 maskEp rule dh dk hk r else 0.0
   if 0.0 < r then bvn + Φ (-(max dh dk))
   else if r < 0.0 then -bvn + max 0.0 (Φ (-dh) - Φ (-dk))
   else bvn
 
 /-- `bvn_cdf(x, y, mu_x, mu_y, sigma_xx, sigma_yy, sigma_xy)` at one point, cut-offs as parameters -/
-def bvnWith (exp sin asin sqrt Φ : α → α) (pi : α) (cA cH cA1 : α)
+def bvnWith (exp sin asin sqrt Φ : α → α) (pi : α) (cA cH cA1 : α) (maskEp : Bool)
     (x y mux muy sxx syy sxy : α) : α :=
   let dh := -(x - mux) / sqrt sxx
   let dk := -(y - muy) / sqrt syy
@@ -188,15 +194,19 @@ def bvnWith (exp sin asin sqrt Φ : α → α) (pi : α) (cA cH cA1 : α)
   let r := sxy / sqrt (sxx * syy)
   let rule := glRule r
   if absv r < thrBranch then bvnLo exp sin asin Φ pi rule dh dk hk r
-  else bvnHi exp sqrt Φ pi cA cH cA1 rule dh dk hk r
+  else bvnHi exp sqrt Φ pi cA cH cA1 maskEp rule dh dk hk r
 
 /-- the code as it is now -/
 def bvn (exp sin asin sqrt Φ : α → α) (pi : α) : α → α → α → α → α → α → α → α :=
-  bvnWith exp sin asin sqrt Φ pi cutAsr cutHk cutAsr1
+  bvnWith exp sin asin sqrt Φ pi cutAsr cutHk cutAsr1 true
 
 /-- the code before 378a266: `ind = asr > 100` -/
 def bvnOld (exp sin asin sqrt Φ : α → α) (pi : α) : α → α → α → α → α → α → α → α :=
-  bvnWith exp sin asin sqrt Φ pi cutAsrOld cutHk cutAsr1
+  bvnWith exp sin asin sqrt Φ pi cutAsrOld cutHk cutAsr1 true
+
+/-- the code before 4b6a233: `ep1 = exp(…)/rs` for every entry, masked only afterwards (`inf*0 = NaN` in far tails) -/
+def bvnOldTail (exp sin asin sqrt Φ : α → α) (pi : α) : α → α → α → α → α → α → α → α :=
+  bvnWith exp sin asin sqrt Φ pi cutAsr cutHk cutAsr1 false
 
 end alg
 end PersimVerif.Kernels
